@@ -40,6 +40,7 @@ ASSUME {FlowSeq[k] : k \in 1..12} = Flows /\ {FabSeq[k] : k \in 1..6} = Fabs
 \* seeded sample, stratified so that EVERY (frame class, flow, regime) triple of the frame family occurs (fabrics cycle) and
 \* EVERY (fabric, rate factor, coarse / fine partition) triple of the scale family occurs; the other dimensions are drawn by TLC
 Reps == IF K < 100 THEN 1 ELSE K \div 40
+BigNs == IF K < 100 THEN {4633} ELSE {4633, 12000}
 ScenInit == /\ nUpd = 0 /\ strain = 0
             /\ st \in (IF K = 0 THEN FrameScens(0) \cup ScaleScens(0)
                         ELSE {[kind |-> "frame", fab |-> FabSeq[((a + b + c + i) % 6) + 1], regime |-> RegSeq[c], flow |-> FlowSeq[b],
@@ -53,7 +54,15 @@ ScenInit == /\ nUpd = 0 /\ strain = 0
                                flow |-> FlowSeq[((a + 6 * pc + i) % 12) + 1],
                                tex |-> RandomElement(Texs), part |-> IF pc = 1 THEN 100 ELSE RandomElement(Parts \ {100}),
                                par |-> RandomElement(ParClasses), n |-> RandomElement(Ns),
-                               k |-> k, i |-> i] : a \in 1..6, k \in Ks, pc \in {0, 1}, i \in 1..Reps})
+                               k |-> k, i |-> i] : a \in 1..6, k \in Ks, pc \in {0, 1}, i \in 1..Reps}
+                             \cup
+                             \* large aggregates (thousands of grains, as production runs use): olivine and enstatite, a
+                             \* geological and a laboratory rate factor, one update over the whole history
+                             {[kind |-> "scale", fab |-> f, regime |-> 4, flow |-> (IF k = "1e3" THEN "gen3d" ELSE "ss_xz"), tex |-> "random", part |-> 1,
+                               par |-> [M |-> 50, chi |-> 3], n |-> n, k |-> k, i |-> 1] : f \in {"A", "EN"}, k \in {"1e-15", "1e3"}, n \in BigNs}
+                             \cup
+                             {[kind |-> "frame", fab |-> f, regime |-> 6, flow |-> "gen3d", tex |-> "random", part |-> 1,
+                               par |-> [M |-> 50, chi |-> 3], n |-> n, q |-> "random", s |-> "subset", i |-> 1] : f \in {"A", "EN"}, n \in BigNs})
 ScenNext == UNCHANGED vars
 \* the harness asks for a seeded subset: emit only scenarios whose index is selected
 EmitScen == PrintT(<<"SCEN", ToJson(st)>>)
